@@ -935,7 +935,7 @@ def gen_cases(tier, seed, search=False):
             yield idx, case
             idx += 1
     # (b) random input sets
-    n_rand = 4000 if thorough else 350
+    n_rand = 3000 if thorough else 350
     if search:
         n_rand = 6000
     for k in range(n_rand):
